@@ -242,7 +242,7 @@ func GoHeader(r *mon.Rand, o HeaderOpts, forbidIV bool) (m map[any]any, usedIV i
 			if r.Bool() {
 				put(3, SpellInt(r, int64(r.Intn(70000))))
 			} else {
-				put(3, mon.Pick(r, "application/cose", "text/plain", "a/b"))
+				put(3, mon.Pick(r, "application/cose", "text/plain", "a/b", "text/plain; charset=utf-8", "a/b;c=d"))
 			}
 		case 1: // kid
 			put(4, BytesValue(r))
